@@ -848,6 +848,8 @@ def rw_literal_none(rng, r):
             return {"r": "none", "sp": rng.random() < 0.5}
         if any(v["t"] == "none" for v in r["vs"]):
             rest = [v for v in r["vs"] if v["t"] != "none"]
+            if not rest:
+                return {"r": "none", "sp": rng.random() < 0.5}
             ms = [{"r": "literal", "vs": rest}, {"r": "none", "sp": rng.random() < 0.5}]
             rng.shuffle(ms)
             return {"r": "union", "style": "Union", "ms": ms}
@@ -1261,14 +1263,17 @@ def suite_groups(ctx: Ctx, real: Real, drv, n_random: int):
     cases = corner_groups()
     for i in range(n_random):
         cases.append(make_group(ctx.rng, ctx.rng.choice([1, 2, 2, 3, 3, 4])))
-    requests, metas = ([], []) if drv else (None, None)
-    for c in cases:
-        eval_group(ctx, real, c, requests, metas)
-        ctx.sample({"suite": "group", "hints": [show(build(r)) for _k, r in c["chain"]][:3],
-                    "edit": [show(build(r)) for _k, r in c["edits"]][:1]}, every=397)
-    if drv:
-        replies = drv.batch(requests)
-        compare_groups(ctx, replies, metas)
+    chunk = 2000     # bounded driver batches (a request carries the full description of a hint)
+    for start in range(0, len(cases), chunk):
+        requests, metas = ([], []) if drv else (None, None)
+        for c in cases[start:start + chunk]:
+            eval_group(ctx, real, c, requests, metas)
+            ctx.sample({"suite": "group", "hints": [show(build(r)) for _k, r in c["chain"]][:3],
+                        "edit": [show(build(r)) for _k, r in c["edits"]][:1]}, every=397)
+        if drv:
+            replies = drv.batch(requests)
+            compare_groups(ctx, replies, metas)
+        del _KEEP_ALIVE[200000:]
 
 
 # ---------------------------------------------------------------------------
@@ -1576,8 +1581,10 @@ def eval_retort_group(ctx: Ctx, real: Real, case, rng):
         if v is not _HIT:
             ctx.fail(f"pred-equiv:{chain[max(i, 1)][0]}", f"loader registered for {show(pred)} does not serve the equivalent hint "
                      f"{show(tp)} ({o})", case)
-    origin_based = _has_bare({"r": "x", **chain[pred_i][1]}) and chain[pred_i][1]["r"] in ("gen", "tuple", "type") \
-        and not children(chain[pred_i][1])
+    # a bare generic as predicate matches by origin, whatever the parameters (documented; C10's business)
+    base = typing.get_origin(pred) or pred
+    origin_based = not typing.get_args(pred) and (
+        base in real.table or base in (tuple, type) or bool(getattr(base, "__parameters__", ())))
     if not origin_based:
         pred_sem = canon(sem_key(chain[pred_i][1], False))
         for (kind, er), tp in zip(case["edits"], edits):
